@@ -48,7 +48,10 @@ func (w *World) Serve(q *Req) {
 	u := &url.URL{Path: q.Path, RawQuery: q.Query}
 	req := (&http.Request{Method: q.Method, URL: u, Header: h, Proto: "HTTP/1.1", ProtoMajor: 1, ProtoMinor: 1,
 		Host: hostOf(q), RequestURI: requestURI(q), RemoteAddr: "192.0.2." + itoa(q.ID%250) + ":4000"}).WithContext(ctx)
-	if q.Body != "" {
+	if q.Body != "" && q.Staged {
+		req.Body = &stagedBody{q: q}
+		req.ContentLength = int64(len(q.Body)) + 1<<20
+	} else if q.Body != "" {
 		req.Body = io.NopCloser(strings.NewReader(q.Body))
 		req.ContentLength = int64(len(q.Body))
 	} else {
@@ -73,6 +76,33 @@ func (w *World) Serve(q *Req) {
 	q.EndStamp = sched.Stamp()
 	q.Served = true
 }
+
+// stagedBody is the request body of a slow or cautious client: it has announced a megabyte,
+// sent the first few bytes, and sends the rest only once it has seen the server's verdict (a
+// staged upload, a saturated uplink). Read hands out the head and then blocks - on the virtual
+// clock - until the response status has left. Application handlers of such requests do not read
+// the body; a framework that drains it before answering waits for a client that waits for it.
+type stagedBody struct {
+	q   *Req
+	off int
+}
+
+func (b *stagedBody) Read(p []byte) (int, error) {
+	if b.off < len(b.q.Body) {
+		n := copy(p, b.q.Body[b.off:])
+		b.off += n
+		return n, nil
+	}
+	if b.q.W.PeekCode() == 0 {
+		b.q.Note("body:read-blocks-until-verdict")
+	}
+	for b.q.W.PeekCode() == 0 {
+		sched.Sleep(50 * time.Millisecond)
+	}
+	return 0, io.ErrUnexpectedEOF // the client has its answer and hangs up
+}
+
+func (b *stagedBody) Close() error { return nil }
 
 // simCtx is the request's root context: a context.Context the simulator ends itself, with the
 // error the fault plan chose — context.Canceled (client went away), context.DeadlineExceeded
